@@ -74,9 +74,10 @@ def gen_case(seed):
         s = {"kind": kind, "user": who, "pw": pw_kind, "wrong": gen_password(rnd, allow_long=True), "start": rnd.choice([0.0, 0.0, 0.01, 0.2]), "hold": rnd.random() < 0.5}
         if kind == "raw":
             s["verb"] = rnd.choice(["PASS", "pass", "PaSs", "Pass", "pAsS"])
-            s["order"] = rnd.choice(["normal", "normal", "pass-first", "pass-twice", "pass-after-login", "cut-after-pass", "double-space", "pipelined-login", "pass-behind-pasv"])
+            s["order"] = rnd.choice(["normal", "normal", "pass-first", "pass-twice", "pass-after-login", "cut-after-pass", "double-space", "pipelined-login", "pass-behind-pasv", "pipelined-then-cut", "user-quit-pass"])
         else:
             s["client_encoding"] = rnd.choice(["utf-8", "utf-8", "latin-1"])
+            s["client_socket_timeout"] = rnd.choice([None, None, 0.05, 0.15])
         sessions.append(s)
     return {"seed": seed, "users": users, "sessions": sessions, "server_encoding": rnd.choice(["utf-8", "utf-8", "latin-1"]), "user_manager": rnd.choice(["memory", "memory", "slow", "digest"])}
 
@@ -142,7 +143,7 @@ def run_case(case):
                     await asyncio.sleep(s["start"])
                 pw = pw_of.get(s["user"]) if s["pw"] == "right" and pw_of.get(s["user"]) else s["wrong"]
                 supplied.append(pw)
-                c = aioftp.Client(path_io_factory=aioftp.MemoryPathIO, encoding=s["client_encoding"])
+                c = aioftp.Client(path_io_factory=aioftp.MemoryPathIO, encoding=s["client_encoding"], socket_timeout=s.get("client_socket_timeout"))
                 try:
                     await c.connect("127.0.0.1", 2121)
                     await c.login(s["user"], pw)
@@ -163,6 +164,25 @@ def run_case(case):
                     await p.connect()
                     order = s["order"]
                     sep = "  " if order == "double-space" else " "
+                    if order in ("pipelined-then-cut", "user-quit-pass"):
+                        # the PASS line has been read by the server but is still waiting its turn
+                        # when the session ends (peer gone, or a QUIT queued in front of it)
+                        burst = ["USER " + s["user"], s["verb"] + sep + pw] if order == "pipelined-then-cut" else ["USER " + s["user"], "QUIT", s["verb"] + sep + pw]
+                        for line in burst:
+                            p.note("C", line)
+                        p.writer.write("".join(line + "\r\n" for line in burst).encode(case["server_encoding"], "replace"))
+                        info["logins"] += 1
+                        if order == "pipelined-then-cut":
+                            await asyncio.sleep(world.rng("c20cut").choice([0.0, 0.0005, 0.003, 0.05]))
+                            p.vanish("rst")
+                            return
+                        try:
+                            while True:
+                                await p.reply(5.0)
+                        except (PeerGone, ReplyTimeout):
+                            pass
+                        p.close()
+                        return
                     if order in ("pipelined-login", "pass-behind-pasv"):
                         # the PASS line is read while another command of the session is still
                         # being handled (USER inside a suspending user manager; PASV opening its
